@@ -6,6 +6,7 @@ import random
 import sys
 sys.path.insert(0, os.path.join(os.path.dirname(os.path.abspath(__file__)), "..", "bind", "py"))
 import machine
+import wasm_encode
 from common import SEED, Verdict, main_wrap
 from wasmgen import b32, b64, CONSTS
 
@@ -251,7 +252,18 @@ def main():
     items = []
     for j, (memk, tabk, gi, gd, nd, ne, start, two, share) in enumerate(lattice[:n]):
         it, _ = make_case("s%d" % j, rng, memk, tabk, gi, gd, nd, ne, start, two, share)
-        items.append(fix_store_addresses(it))
+        it = fix_store_addresses(it)
+        items.append(it)
+        if j % 3 == 0 and any(d["mode"] == "active" for d in it["module"].get("data", [])):
+            # the same module with its active data segments written with an explicit memory index (flag 2)
+            it["wasm"] = wasm_encode.encode(machine.enc_module(it["module"]), {"dataForm": {str(k): "flag2" for k in range(len(it["module"]["data"]))}})
+        if j % 4 == 1 and not two and sum(1 for o_ in it["script"] if o_["op"] == "instantiate") == 1:
+            # release the instance and instantiate again INTO THE SAME STORAGE: the second instance starts from the initial state
+            # (start function run again, globals and memory fresh) and answers the same calls in the same way
+            k_inst = [n_ for n_, o_ in enumerate(it["script"]) if o_["op"] == "instantiate"][0]
+            again = dict(it["script"][k_inst], reuse=1)
+            calls2 = [dict(o_, inst=2) for o_ in it["script"][k_inst + 1:] if o_["op"] == "call"]
+            items.append(dict(it, id=it["id"] + "r", script=it["script"] + [{"op": "free", "inst": 1}, again] + calls2))
     builds = [{"name": "gcc-O1", "cc": "gcc", "cflags": ("-O1",)},
               {"name": "gcc-O1-gnu-ld", "cc": "gcc", "cflags": ("-O1",), "w2c2_opts": ("-m", "-d", "gnu-ld")}]
     if tier != "quick":
